@@ -31,10 +31,11 @@ META = {
     'rule': 'single: full product agent position x query point x leeway combination per world; population: BFS over '
             'histories with the query menu in every state; distinct_nontrivial counts distinct (query, answer) pairs',
     'alphabet': {'worlds': WORLDS, 'wrap': [False, True],
-                 'general leeway': [-1, 0, 0.5, 1, 2], 'per-axis leeways': 'each of x,y,z in {0,1,3} one at a time, '
+                 'general leeway': [-1, 0, 0.5, 1, 2, 4, 6], 'per-axis leeways': 'each of x,y,z in {0,1,3} one at a time, '
                  '(1,1,1), (3,3,3), (1,0,3), combined with general leeway 0 and 1; also negative per-axis (-1,-1,-1)',
                  'positions': 'lattice step 0.5 (continuous) / 1 (grid); quick: 3 values per axis for the agent and '
-                              '5 for the query point, thorough: full lattice, query lattice extended one step outside'},
+                              '6 for the query point (one step outside and far outside), thorough: full lattice extended one step and '
+                              '2*extent+1 outside'},
     'bounds': {'quick': 'reduced lattices; population depth 3 on 2 worlds', 'thorough': 'full lattices; population '
                'depth 4 on 4 worlds'},
     'assumptions': ['positions are read back from the agents (C08 covers how they get there)',
@@ -52,7 +53,7 @@ def mk(model, kind, dims, wrap):
 
 
 def leeway_combos():
-    out = [(L, 0, 0, 0) for L in (-1, 0, 0.5, 1, 2)]
+    out = [(L, 0, 0, 0) for L in (-1, 0, 0.5, 1, 2, 4, 6)]      # 4 and 6 reach / exceed the largest extent
     per = [(1, 0, 0), (3, 0, 0), (0, 1, 0), (0, 3, 0), (0, 0, 1), (0, 0, 3), (1, 1, 1), (3, 3, 3), (1, 0, 3)]
     for L in (0, 1):
         out += [(L,) + p for p in per]
@@ -99,11 +100,11 @@ def axis_values(E, cont, full):
     if full:
         n = int(top / step)
         a = [step * i for i in range(n + 1)]
-        q = [-step] + a + [top + step]
+        q = [-(2 * E + 1), -step] + a + [top + step, top + 2 * E + 1]
     else:
         mid = (E // 2) if not cont else E / 2
         a = sorted({0, mid, top})
-        q = sorted({-step, 0, mid, top, top + step})
+        q = sorted({-step, 0, mid, top, top + step, top + 2 * E + 1})      # incl. a point far outside the world
     conv = (lambda v: float(v)) if cont else (lambda v: int(v))
     return [conv(v) for v in a], [conv(v) for v in q]
 
